@@ -29,6 +29,8 @@ for n in ('1', '2', '3'):
         continue
     if 'suite' in res:
         open(os.path.join(dst, 'suite.txt'), 'w').write(res.get('suite', ''))
+    elif os.path.exists(os.path.join(dst, 'suite.txt')):
+        res['suite'] = open(os.path.join(dst, 'suite.txt')).read()
     checks = {k[6:]: v for k, v in res.items() if k.startswith('check_')}
     verdict = 'verifies' if all(v['exit'] == 0 for v in checks.values()) else \
         ('FALSE ALARM' if any(v['exit'] == 1 for v in checks.values()) else 'undecided (exit 2)')
